@@ -5,7 +5,9 @@ tables (C16.a); format, coordinate and dimension checks dominate the tile-manage
 unknown layers/matrix sets raise before any lookup (C16.b); the pixel and tile limits are
 comparisons of an area (X times Y) with the configured limit whose true edge raises, placed
 before any work (C16.c); out-of-grid (None) coordinates are inert in the manager, in every
-backend and in the creators (C16.d)."""
+backend and in the creators (C16.d).
+Added in round 4: the REST dimension pre-check looks at every dimension slot before the tile is
+rendered (C16.i)."""
 import ast
 
 from ..engine import rule
